@@ -103,6 +103,8 @@ def run_job(job, work, tier, cache_dir, versions):
         cmd += ['--transparent', s]
     for i in job.get('inc', []):
         cmd += ['--inc', i]
+    for g_ in job.get('globals', []):
+        cmd += ['--global', g_]
     for s_ in job.get('structs', JOBS.DEFAULT_STRUCTS):
         cmd += ['--struct', s_]
     rc, out, err, secs = sh(cmd, timeout=300)
